@@ -1,6 +1,7 @@
 package main
 
 import (
+	"sort"
 	"fmt"
 	"go/types"
 	"strings"
@@ -94,6 +95,8 @@ type State struct {
 	assumeTo  *State // evaluation copies forward their assumptions to the real state
 	dryFreshFrom int
 	dryKinds map[string]int // how each array is written in the dry run (wLoopFresh|wFnFresh|wArbitrary|wCallee)
+	dryWilds *[][2][]string // wildcard havocs met in the dry run (shared by its forks)
+	pendingWild [][2][]string // wildcard frames of the callee being applied (recorded once its allocations are accounted for)
 	pendingAx []pendingAxiom
 	ghosts map[string]Term // loop ghost arrays
 	curLoop int
@@ -237,7 +240,96 @@ func (st *State) heapGet(name string, sort Sort) Term {
 			st.x.decls.Axiom(ax)
 		}
 	}
+	// an array that is looked at for the first time after a callee with a wildcard frame (`modifies all
+	// T.*`) ran: its value is what that callee left, not the entry value
+	if w, ok := lastWildFor(st.heap, name); ok {
+		cn := name + "@w" + w.seq
+		hv := st.x.decls.Const(cn, sort)
+		if !st.x.wildDeclared[cn] {
+			st.x.wildDeclared[cn] = true
+			if ax, ok := st.x.typeAxiom(name, hv, Term{w.alloc, SInt}); ok {
+				st.x.decls.Axiom(ax)
+			}
+		}
+		st.heap[name] = hv
+		return hv
+	}
 	return t
+}
+
+// A wildcard havoc is remembered inside the heap map itself (so that every snapshot of the heap carries
+// exactly the havocs that happened before it): key "~wild:<seq>", value = patterns, preserved name
+// parts and the allocation mark after the call.
+const wildKeyPrefix = "~wild:"
+
+type wildRec struct {
+	seq   string
+	pats  []string
+	keep  []string
+	alloc string
+}
+
+func parseWild(key string, t Term) wildRec {
+	parts := strings.Split(t.S, "\x1e")
+	w := wildRec{seq: strings.TrimPrefix(key, wildKeyPrefix)}
+	if len(parts) == 3 {
+		if parts[0] != "" {
+			w.pats = strings.Split(parts[0], "\x1f")
+		}
+		if parts[1] != "" {
+			w.keep = strings.Split(parts[1], "\x1f")
+		}
+		w.alloc = parts[2]
+	}
+	return w
+}
+
+func (w wildRec) matches(name string) bool {
+	for _, k := range w.keep {
+		if strings.Contains(name, k) {
+			return false
+		}
+	}
+	for _, p := range w.pats {
+		if strings.Contains(name, p) {
+			return true
+		}
+	}
+	return false
+}
+
+func wildRecs(heap map[string]Term) []wildRec {
+	var out []wildRec
+	for k, v := range heap {
+		if strings.HasPrefix(k, wildKeyPrefix) {
+			out = append(out, parseWild(k, v))
+		}
+	}
+	sort.Slice(out, func(i, j int) bool { return out[i].seq < out[j].seq })
+	return out
+}
+
+func lastWildFor(heap map[string]Term, name string) (wildRec, bool) {
+	if strings.HasPrefix(name, "cell:") {
+		return wildRec{}, false
+	}
+	rs := wildRecs(heap)
+	for i := len(rs) - 1; i >= 0; i-- {
+		if rs[i].matches(name) {
+			return rs[i], true
+		}
+	}
+	return wildRec{}, false
+}
+
+// recordWild notes that arrays matching pats (except those containing a keep part) were havoced; to be
+// called after the allocation mark has been advanced.
+func (st *State) recordWild(pats, keep []string) {
+	st.x.wildSeq++
+	st.heap[fmt.Sprintf("%s%06d", wildKeyPrefix, st.x.wildSeq)] = Term{S: strings.Join(pats, "\x1f") + "\x1e" + strings.Join(keep, "\x1f") + "\x1e" + st.alloc.S, Sort: "wild"}
+	if st.dryWilds != nil {
+		*st.dryWilds = append(*st.dryWilds, [2][]string{pats, keep})
+	}
 }
 
 type localRef struct {
